@@ -61,7 +61,14 @@ def gen_cases(rng, tier, names=None, per=None):
                 w = idle_of(name, ns)
                 choices = [0, 1, 2, max(0, w - 1), w, w + 1, 2 * w + 2, rng.randrange(0, maxlen), rng.randrange(w, w + 40)]
                 n = choices[j % len(choices)]
-            ins, regime, _ = make_inputs(rng, name, n, REGIMES[j % len(REGIMES)] if j % 2 else None)
+            ins, regime, _ = make_inputs(rng, name, n, REGIMES[(j // 2) % len(REGIMES)] if j % 2 else None)
+            cases.append((name, ns, fs, ins, regime))
+        # every indicator meets the cancellation-prone regimes on a series comfortably longer than its warm-up
+        for regime in ('offset', 'outlier', 'ties'):
+            ns, fs = cfg(rng, hi)
+            ns, fs = list(ns), list(fs)
+            w = idle_of(name, ns)
+            ins, regime, _ = make_inputs(rng, name, w + rng.randrange(12, 60), regime)
             cases.append((name, ns, fs, ins, regime))
     return cases
 
